@@ -206,6 +206,24 @@ func runC10(c *mon.Ctx) {
 				if err != nil || !bytes.Equal(d, ref.TileBytes(rt)) {
 					c.Violation("readtiledata-not-true-tile", fmt.Sprintf("rtd:%d:%d:%s", n, h, t.Path()), fmt.Sprint(err))
 				}
+				// storage that comes up short (the newest hashes are not written yet) without saying so:
+				// the publisher gets a refusal, or the true tile, never something else to publish
+				if cut := int(int64(rt.L)+int64(rt.N)+int64(rt.W)) % 4; cut < 2 { // by coordinates: the set is walked in map order
+					short := &shortReader{r: srd, drop: 1 + cut*(t.W-1)} // one hash missing, or (cut=1) all of them
+					var sd []byte
+					var serr error
+					c.Guard(fmt.Sprintf("rtd-short:%d:%d:%s", n, h, t.Path()), nil, func() { sd, serr = tlog.ReadTileData(t, short) })
+					c.Eval(1)
+					switch {
+					case serr != nil:
+						c.Class("readtiledata:short-storage-reply:refused")
+					case bytes.Equal(sd, ref.TileBytes(rt)):
+						c.Class("readtiledata:short-storage-reply:true-tile-anyway")
+					default:
+						c.Violation("readtiledata-hands-out-untrue-tile-on-short-storage-reply", fmt.Sprintf("rtd-short:%d:%d:%s", n, h, t.Path()),
+							map[string]any{"tile": t.Path(), "hashes_asked": short.asked, "hashes_returned": short.gave, "got_len": len(sd)})
+					}
+				}
 			}
 
 			// ---- index sets -------------------------------------------------------------------
